@@ -197,6 +197,12 @@ pub fn determinism(args: &[String]) -> i32 {
             writeln!(out, "{}", rec(format!("main-{round}"), j.id, run_plain(j))).unwrap();
         }
     }
+    // (a') the same configuration reached through the one-at-a-time builder methods
+    for j in &spec.jobs {
+        let mut j2 = j.clone();
+        j2.cfg.alt_builder = !j2.cfg.alt_builder;
+        writeln!(out, "{}", rec("main-other-builder-route".to_string(), j.id, run_plain(&j2))).unwrap();
+    }
     // (b) concurrently on `threads` threads, all starting together
     let barrier = std::sync::Arc::new(std::sync::Barrier::new(spec.threads));
     let jobs = std::sync::Arc::new(spec.jobs.clone());
@@ -333,6 +339,24 @@ pub fn total_child(args: &[String]) -> i32 {
                 }
             }
         }
+        "nest" => {
+            // long periodic inputs (one opcode choice repeated: the deepest nesting and the longest memo an
+            // input of `maxlen` bytes can produce), run on a thread with the default 2 MiB stack
+            use rand::{Rng, SeedableRng};
+            let mut rng = rand_chacha::ChaCha8Rng::seed_from_u64(b.seed);
+            let mut inputs: Vec<Vec<u8>> = (0..=255u8).map(|c| vec![c; b.maxlen]).collect();
+            for _ in 0..b.n {
+                let (x, y, lead): (u8, u8, u8) = (rng.random(), rng.random(), rng.random());
+                let mut v = vec![lead, x];
+                while v.len() < b.maxlen { v.push(y); v.push(x); }
+                inputs.push(v);
+            }
+            std::thread::scope(|sc| {
+                std::thread::Builder::new().stack_size(2 << 20).spawn_scoped(sc, || {
+                    for inp in &inputs { one(Some(inp), 0); }
+                }).unwrap().join().unwrap();
+            });
+        }
         "random" => {
             use rand::{Rng, RngCore, SeedableRng};
             let mut rng = rand_chacha::ChaCha8Rng::seed_from_u64(b.seed);
@@ -423,7 +447,7 @@ pub fn opscan(args: &[String]) -> i32 {
                 while i < n {
                     let seed = first_seed + i;
                     tick(|| format!("opscan protocol {p} seed {seed}"));
-                    let cfg = Cfg { p, min: 60, max: 300, muts: vec![], mut_unsafe: false, rate: 0.1, rate_raw: false, rate_special: String::new(), unsafe_: false, ext: false, buf: false };
+                    let cfg = Cfg { p, min: 60, max: 300, muts: vec![], mut_unsafe: false, rate: 0.1, rate_raw: false, rate_special: String::new(), unsafe_: false, ext: false, buf: false, bufsize: None, alt_builder: false };
                     let mut g = build_generator(&cfg, Some(seed));
                     verif::start_recording(false);
                     let r = catch_unwind(AssertUnwindSafe(|| g.generate()));
@@ -467,7 +491,7 @@ pub fn leak(args: &[String]) -> i32 {
     let mut lines: Vec<String> = Vec::new();
     // warm-up: one generation per protocol so one-time allocations (module table) are done
     for p in 0..6 {
-        let c = Cfg { p, min: 10, max: 20, muts: vec![], mut_unsafe: false, rate: 0.1, rate_raw: false, rate_special: String::new(), unsafe_: false, ext: false, buf: false };
+        let c = Cfg { p, min: 10, max: 20, muts: vec![], mut_unsafe: false, rate: 0.1, rate_raw: false, rate_special: String::new(), unsafe_: false, ext: false, buf: false, bufsize: None, alt_builder: false };
         let mut g = build_generator(&c, Some(1));
         let _ = g.generate();
     }
